@@ -95,9 +95,12 @@ def check(ctx, case):
             if segs[1 + k].ctrlpoints[-1] is not segs[2 + k].ctrlpoints[0]:
                 fails.append(Fail(kind="O", what="junction not shared after curved split", i=k))
         for sg in segs[1:]:
+            # a piece the library degree-reduced may leave the curve by what its tolerance (squared L2 error 1e-9)
+            # permits: the chord of such a piece is at most 1.1e-4 away; other pieces stay on the curve (1e-6)
+            lim = 2e-4 if sg.degree == 1 else 1e-6
             for x in (0.0, 0.5, 1.0):
                 q = sg(x)
-                if abs(float(q[1]) - h * (1 - (float(q[0]) / a) ** 2)) > 1e-4:
+                if abs(float(q[1]) - h * (1 - (float(q[0]) / a) ** 2)) > lim:
                     fails.append(Fail(kind="O", what="piece leaves the parabola", impl=[float(q[0]), float(q[1])]))
         ctx.count("cap:reduced" if any(sg.degree == 1 for sg in segs[1:]) else "cap:kept")
         return fails
